@@ -144,3 +144,84 @@ fn c16_twin_must_fail() {
     let (_, v) = vh::qpack::lookup_field(17).unwrap();
     assert!(v.len() == 4, "twin: wrong oracle");
 }
+
+
+/// polls `fut` until it is ready, at most `max` times
+fn drive<F: std::future::Future>(fut: F, max: usize) -> Option<F::Output> {
+    let mut fut = std::pin::pin!(fut);
+    let mut cx = std::task::Context::from_waker(std::task::Waker::noop());
+    let mut i = 0;
+    while i < max {
+        if let std::task::Poll::Ready(v) = fut.as_mut().poll(&mut cx) {
+            return Some(v);
+        }
+        i += 1;
+    }
+    None
+}
+
+// @h props=C16,C01 tier=quick t=2400 mem=20 sub=async-writers-under-flow-control
+// @fn wtransport-proto/src/bytes.rs BytesWriterAsync::put_buffer PutBuffer::poll
+// @bound a 4-byte symbolic buffer written into a sink that, at every poll_write, either suspends (at most twice in total) or takes one byte of what it is offered; the future is re-polled after every suspension (3 polls); unwind 6
+// @oracle the sink ends up with exactly the buffer: nothing duplicated, dropped or reordered however the writes are cut and suspended
+// @assume From<io::Error> stub; MODEL StutterWriter
+// @outside buffers longer than 4 bytes, more than 2 suspensions, sink errors
+#[kani::proof]
+#[kani::unwind(6)]
+#[kani::stub(<wtransport_proto::bytes::IoWriteError as std::convert::From<std::io::Error>>::from, crate::common::io_write_err_stub)]
+fn c16_async_put_buffer_stutter() {
+    use wtransport_proto::bytes::BytesWriterAsync;
+    let buf: [u8; 4] = kani::any();
+    let mut w = StutterWriter::<4>::new(2);
+    let r = drive(w.put_buffer(&buf), 3);
+    assert!(matches!(r, Some(Ok(()))), "put_buffer did not complete on a healthy sink");
+    assert!(w.off == 4 && eq_prefix(&w.data, &buf, 4), "put_buffer emitted different bytes than it was given");
+    kani::cover!(w.cut_then_pending == 2, "two suspensions, each right after a partial write");
+}
+
+// @h props=C16,C01 tier=quick t=2400 mem=20 sub=async-writers-under-flow-control
+// @fn wtransport-proto/src/bytes.rs BytesWriterAsync::put_varint PutVarint::poll
+// @bound an arbitrary 62-bit varint written into the stuttering sink (at most 2 suspensions, one byte per write, 3 polls); unwind 10
+// @oracle the sink ends up with exactly the reference encoding of the varint
+// @assume From<io::Error> stub; MODEL StutterWriter
+// @outside more than 2 suspensions, sink errors
+#[kani::proof]
+#[kani::unwind(10)]
+#[kani::stub(<wtransport_proto::bytes::IoWriteError as std::convert::From<std::io::Error>>::from, crate::common::io_write_err_stub)]
+fn c16_async_put_varint_stutter() {
+    use wtransport_proto::bytes::BytesWriterAsync;
+    let v = any_varint();
+    let mut w = StutterWriter::<8>::new(2);
+    let r = drive(w.put_varint(v), 3);
+    assert!(matches!(r, Some(Ok(()))), "put_varint did not complete on a healthy sink");
+    let mut refb = [0u8; 8];
+    let rn = ref_varint_put(v.into_inner(), &mut refb);
+    assert!(w.off == rn && eq_prefix(&w.data, &refb, rn), "put_varint emitted different bytes than the encoding");
+    kani::cover!(rn == 8 && w.cut_then_pending == 2, "8-byte varint cut and suspended twice");
+}
+
+// @h props=C16,C14 tier=quick t=2400 mem=20 sub=async-writers-under-flow-control
+// @fn wtransport-proto/src/frame.rs Frame::{write_async,write,new_data}; wtransport-proto/src/bytes.rs PutVarint PutBuffer
+// @bound a DATA frame with a 2-byte symbolic payload written through the stuttering sink (at most 2 suspensions, one byte per write, 3 polls); unwind 4
+// @oracle the bytes on the sink equal the bytes of the synchronous `Frame::write` (type, length, payload - each once)
+// @assume From<io::Error> stub; MODEL StutterWriter
+// @outside other frame kinds (same code path), longer payloads
+#[kani::proof]
+#[kani::unwind(5)]
+#[kani::stub(<wtransport_proto::bytes::IoWriteError as std::convert::From<std::io::Error>>::from, crate::common::io_write_err_stub)]
+fn c16_frame_write_async_stutter() {
+    use wtransport_proto::bytes::BufferWriter;
+    use wtransport_proto::frame::Frame;
+    let p: [u8; 2] = kani::any();
+    let f = Frame::new_data(std::borrow::Cow::Borrowed(&p[..]));
+    let mut w = StutterWriter::<4>::new(2);
+    let r = drive(f.write_async(&mut w), 3);
+    assert!(matches!(r, Some(Ok(()))), "write_async did not complete on a healthy sink");
+    let mut sync = [0u8; 4];
+    let mut bw = BufferWriter::new(&mut sync);
+    assert!(f.write(&mut bw).is_ok());
+    let n = bw.offset();
+    assert!(n == 4 && w.off == n, "async writer emitted a different number of bytes");
+    assert!(eq_prefix(&w.data, &sync, n), "async writer emitted different bytes than the one-shot writer");
+    kani::cover!(w.cut_then_pending >= 1 && w.pendings == 0, "payload cut and suspended");
+}
